@@ -134,6 +134,8 @@ func Run(c *vh.Ctx) {
 	r.flush()
 	r.numberLayer()
 	r.flush()
+	r.markerLayer()
+	r.flush()
 	c.Res.Exhaustive = true
 	c.Res.ExhaustiveWhat = "all 256 single bytes and all 65536 byte pairs through every byte codec (encoders and decoders), the wire primitives and the wire parser under " + fmt.Sprint(len(pairOpts)) + " option sets"
 	c.Res.ModelLines = modelLines(r.m)
